@@ -15,6 +15,8 @@ import Bt.Driver.Tok
       -> ok <list (cash positions value|E err)>  |  err <error>
     report renorm <par> <v> <values: list float> <flows: list float>
       -> ok <list price?>      (RenormalizedFixedIncomeResult._price; a NaN row travels as N)
+    report renorms <par> <vs: list float?> <values: list float> <flows: list float>
+      -> ok <list price?>      (the normalising value given as a series on the backtest's dates)
 -/
 namespace Bt.Driver
 open Bt.Tok Bt.Report
@@ -93,8 +95,15 @@ def pReplay : P String := do
 def pRenorm : P String := do
   let par ← float; let v ← float
   let values ← list float; let flows ← list float
-  let out := Renorm.renormPrices par v values flows
-  pure ("ok " ++ " ".intercalate (pList (fun (x : Float) => if x.isNaN then ["N"] else pFloat x) out))
+  let out := Renorm.renormPricesS par (List.replicate values.length (some v)) values flows
+  pure ("ok " ++ " ".intercalate (pList (pOpt pFloat) out))
+
+def pRenormS : P String := do
+  let par ← float
+  let vs ← list (opt float)
+  let values ← list float; let flows ← list float
+  let out := Renorm.renormPricesS par vs values flows
+  pure ("ok " ++ " ".intercalate (pList (pOpt pFloat) out))
 
 def pReport : P String := do
   let kind ← next
@@ -102,6 +111,7 @@ def pReport : P String := do
   | "hist" => pHist
   | "replay" => pReplay
   | "renorm" => pRenorm
+  | "renorms" => pRenormS
   | _ => throw s!"unknown report request {kind}"
 
 end Rep
